@@ -19,7 +19,8 @@ from .. import core, tlaval, tlc, tracecheck
 ALG_CLASSES = ["PowerMethod", "GradientMethod", "ConjugateGradient", "PrimalDualHybridGradient", "AltMin",
                "AugmentedLagrangianMethod", "SDMM", "NewtonsMethod", "GerchbergSaxton", "FailingAlg"]
 APP_CLASSES = ["MaxEig", "LLS_ConjugateGradient", "LLS_GradientMethod", "LLS_PrimalDualHybridGradient", "LLS_ADMM",
-               "L2ConstrainedMinimization", "ADMM"]
+               "L2ConstrainedMinimization", "ADMM",
+               "MRI_SenseRecon", "MRI_L1WaveletRecon", "MRI_TotalVariationRecon", "MRI_JsenseRecon", "MRI_EspiritCalib"]
 SUITE_QUICK = ["tests/test_alg.py", "tests/test_app.py"]
 SUITE_THOROUGH = ["tests/test_alg.py", "tests/test_app.py", "tests/mri/test_app.py", "tests/mri/test_precond.py", "tests/mri/test_dcf.py",
                   "tests/mri/rf/test_ptx.py"]
@@ -305,7 +306,7 @@ def run(ctx):
         for si, (mi, calls) in enumerate(seqs):
             if cls in APP_CLASSES and "run" not in calls:
                 calls = calls + ["run"]
-            if cls in ("SDMM", "GerchbergSaxton", "LLS_ADMM", "ADMM", "L2ConstrainedMinimization") and si % 3 != 0:
+            if (cls in ("SDMM", "GerchbergSaxton", "LLS_ADMM", "ADMM", "L2ConstrainedMinimization") or cls.startswith("MRI_")) and si % 3 != 0:
                 continue  # slower classes get a third of the walks
             jobs.append({"cls": cls, "max_iter": mi, "calls": calls, "seed": ctx.seed * 1000 + si, "variant": si, "probe": False})
     # early-stop probes: tol = 0, generous budget, every variant
